@@ -130,6 +130,10 @@ def _module(draw, ctx):
     esc = draw(st.integers(0, 3)) == 0
     tool = draw(st.integers(0, 3)) == 0
     pool = VNAMES + (S.ESCAPED if esc else [])
+    if not tool and draw(st.integers(0, 4)) == 0:
+        # names whose underscore-joins coincide (a_b + c vs a + b_c): the reader names
+        # expression gates by joining operand names
+        pool = list(S.COMPOUND) + ["s", "sel", "sel_a", "s_a", "b_c_d", "a_b_c_d"] + VNAMES[:6]
     n_in = draw(st.integers(1, 4))
     n_def = draw(st.integers(1, 8))
     if tool:
@@ -265,7 +269,8 @@ def _module(draw, ctx):
     # comments
     ports = list(draw(st.permutations(inputs + outputs)))
     if draw(st.integers(0, 2)) == 0:
-        texts = [" plain comment ", "assign x = y; and g(a,b)", " input zz ", "***", " wire ", " 1'b0 ~^ "]
+        texts = [" plain comment ", "assign x = y; and g(a,b)", " input zz ", "***", " wire ", " 1'b0 ~^ ",
+                 "*", "**", "* banner **", " text **", "** x *", "*** box ***", " a * b ", " / ", "/", "* /"]
         for _ in range(draw(st.integers(1, 3))):
             cm = {"k": "comment", "text": draw(st.sampled_from(texts)), "style": draw(st.sampled_from(["line", "block"]))}
             pos = draw(st.integers(0, len(items)))
